@@ -154,6 +154,26 @@ Theorem C07_reregister_variant_refuted :
 Proof. exact reregister_variant_refuted. Qed.
 Print Assumptions C07_reregister_variant_refuted.
 
+(* Register of a ConnID that already has a record (authenticated or not; replacement wrapping the same stream, as the
+   server's call sites do) preserves the invariant, from every state satisfying it — and the re-registered connection is
+   the current one of its (new) client while the replaced record's id no longer resolves *)
+Theorem C07_reregistration_preserves_invariant :
+  forall (k : cfg) (s : st) (c pre : N), Inv s -> Inv (fst (step Current k s (ReReg c pre))).
+Proof. intros k s c pre. exact (inv_step k s (ReReg c pre)). Qed.
+Print Assumptions C07_reregistration_preserves_invariant.
+
+Theorem C07_reregistration_nonvacuous :
+  let s := run Current k0 init [Accept 1; Handshake 1 0 7 true; ReReg 1 9] in
+  by_client s 9 = Some 1 /\ by_client s 7 = None /\ mem 1 (closed s) = false /\ counts s = (1, 1, 0).
+Proof. exact rereg_demo. Qed.
+Print Assumptions C07_reregistration_nonvacuous.
+
+(* the tree as it is (before fixes/C07-register-replace-shared-stream.diff): the replacement is registered and indexed with a closed transport *)
+Theorem C07_head_reregistration_refuted :
+  exists ops x c, by_client (run Head k0 init ops) x = Some c /\ mem c (closed (run Head k0 init ops)) = true.
+Proof. exact head_rereg_refuted. Qed.
+Print Assumptions C07_head_reregistration_refuted.
+
 (* the defect of the pinned tree (repaired by fixes/C07-reauth-stale-index.diff), kept as refuted statements:
    Register; UpdateAuth 100; UpdateAuth 200; Remove  leaves id 100 resolving to a closed, unregistered connection *)
 Theorem C07_pinned_reauth_refuted :
